@@ -287,6 +287,19 @@ func (c *compiler) compileType(y *Type, parent Leafable, isUnion bool) error {
 				c.inheritFromTypedef(parent, tdef)
 			}
 		}
+		if y.format.Single() == val.FmtLeafRef && !isUnion {
+			// where a leafref leads depends on where the leaf is: a copy of a grouping's leaf
+			// cannot share the type object of the copy compiled before it
+			own := *y
+			if err := c.resolveLeafref(&own, parent); err != nil {
+				return err
+			}
+			if _, isList := parent.(*LeafList); isList {
+				own.format = own.format.List()
+			}
+			parent.setType(&own)
+			return nil
+		}
 		if _, isList := parent.(*LeafList); isList && !y.format.IsList() {
 			y.format = y.format.List()
 		}
